@@ -64,6 +64,15 @@ fn strings(request: &Value, name: &str) -> Vec<String> {
         .unwrap_or_default()
 }
 
+/// RequireMode as it is met inside the untagged RulePropertyValue: serde first buffers the value, and the
+/// derived deserializer of the internally tagged enum then reads that buffer (which, unlike reading the text
+/// directly, also takes a sequence whose first element is the variant name or index).
+#[derive(serde::Deserialize)]
+#[serde(untagged)]
+enum BufferedRequireMode {
+    Mode(RequireMode),
+}
+
 fn oracles(request: &Value) -> Value {
     let mut globs = Map::new();
     for g in strings(request, "globs") {
@@ -82,8 +91,10 @@ fn oracles(request: &Value) -> Value {
     }
     let mut require_modes = Map::new();
     for text in strings(request, "require_modes") {
-        let normal = match json5::from_str::<RequireMode>(&text) {
-            Ok(mode) => Value::String(serde_json::to_string(&mode).unwrap_or_default()),
+        let normal = match json5::from_str::<BufferedRequireMode>(&text) {
+            Ok(BufferedRequireMode::Mode(mode)) => {
+                Value::String(serde_json::to_string(&mode).unwrap_or_default())
+            }
             Err(_) => Value::Null,
         };
         require_modes.insert(text, normal);
